@@ -71,6 +71,27 @@ def _registry(prog, modname, regname):
     return registry_entries(prog, modname, regname)
 
 
+def _scatter_of_running_values(ctx, al, target, case):
+    """Without an interpolation over the scores the only other readable
+    route back to input order is the scatter out[order] = values. Values
+    that are running quantities of the rank order (a cumulative sum along
+    the sorted list) differ between PSMs of equal score - which of them
+    comes first is the sort's choice - so the result is not a function of
+    the score."""
+    for ev in al.events.of("scatter"):
+        v = ev["value"]
+        if not isinstance(v, Arr):
+            continue
+        if v.rank:
+            ctx.fail("C06c-function-of-score", target,
+                     f"scatter {ev['term'][:90]}",
+                     "values computed along the rank order (cumulative "
+                     "counts) are put back per rank, with no interpolation "
+                     "over the scores: PSMs with equal scores receive "
+                     "different values, depending on the order the sort "
+                     "left them in", node=target.node, case=case)
+
+
 def run(ctx):
     prog = ctx.prog
     peps = _registry(prog, "peps", "PEP_ALGORITHM")
@@ -381,6 +402,8 @@ def _check_entry(ctx, name, lam, kind):
                "monotone PEPs from the qvality library (trusted summary)",
                case=case)
     else:
+        if not interps:
+            _scatter_of_running_values(ctx, al, target, case)
         ctx.require(interps, f"{target.qual} [{case}]: no np.interp found; "
                     "idiom not recognised")
     for ev in interps:
